@@ -38,7 +38,7 @@ LEVEL_NOTE = "Trusted: vf/ref/bz.py pl_split_line/pl_expand (documented line syn
 RULE = (
     "text cases: 1-7 lines from {entry line: indent spec (gap kw)* trail [comment] eol | blank | comment-only}, specs "
     "bare/=/>=/~/slotted, keywords arches/~arches/prefix/sentinels * ^ -/'amd64#x86', eol LF/CRLF/none(last); a "
-    "suggestion table per cat/pkg (possibly empty) and a replacement keyword list for one line; non-trivial = has a "
+    "suggestion function depending on the full atom (operator/version/slot; possibly empty), in a third of the cases all lines name one cat/pkg at different versions/slots (class same_key_different_version_lines), and a replacement keyword list for one line; non-trivial = has a "
     "sentinel line AND (a comment on an entry line, or non-single-space spacing, or CRLF). build cases: 1-6 "
     "(atom, keywords) pairs; non-trivial = >=2 entries with keywords. distinct = the text / the entry list"
 )
@@ -62,25 +62,29 @@ COMMENTS = ["#", "# note", "#* ^", "# see #123", "#\t^ amd64", "# -", "#keep me 
 SUGGEST_KW = ["amd64", "x86", "arm64", "~hppa", "sparc"]
 
 
-def spec():
-    def mk(form, cat, pkg, ver, slot):
-        key = f"{cat}/{pkg}"
-        if form == "plain":
-            return {"s": key, "atom": key, "key": key}
-        if form == "slot":
-            return {"s": f"{key}:{slot}", "atom": f"{key}:{slot}", "key": key}
-        if form == "bare":
-            return {"s": f"{key}-{ver}", "atom": f"={key}-{ver}", "key": key}
-        if form == "bareslot":
-            return {"s": f"{key}-{ver}:{slot}", "atom": f"={key}-{ver}:{slot}", "key": key}
-        if form == "glob":
-            return {"s": f"={key}-{ver}*", "atom": f"={key}-{ver}*", "key": key}
-        if form == "~":
-            ver = ver.split("-r")[0]  # PMS: ~ takes no revision
-        return {"s": f"{form}{key}-{ver}", "atom": f"{form}{key}-{ver}", "key": key}
+def make_spec(form, cat, pkg, ver, slot):
+    """-> spelling as written (`s`), the atom it denotes (`atom`, also the identity a suggestion function may
+    depend on: operator, version and slot included) and its category/package (`key`)"""
+    key = f"{cat}/{pkg}"
+    comp = {"form": form, "cat": cat, "pkg": pkg, "ver": ver, "slot": slot}
+    if form == "plain":
+        return dict(comp, s=key, atom=key, key=key)
+    if form == "slot":
+        return dict(comp, s=f"{key}:{slot}", atom=f"{key}:{slot}", key=key)
+    if form == "bare":
+        return dict(comp, s=f"{key}-{ver}", atom=f"={key}-{ver}", key=key)
+    if form == "bareslot":
+        return dict(comp, s=f"{key}-{ver}:{slot}", atom=f"={key}-{ver}:{slot}", key=key)
+    if form == "glob":
+        return dict(comp, s=f"={key}-{ver}*", atom=f"={key}-{ver}*", key=key)
+    if form == "~":
+        ver = ver.split("-r")[0]  # PMS: ~ takes no revision
+    return dict(comp, s=f"{form}{key}-{ver}", atom=f"{form}{key}-{ver}", key=key)
 
+
+def spec():
     return st.builds(
-        mk,
+        make_spec,
         st.sampled_from(["plain", "bare", "bare", "=", "=", ">=", "~", "<", "slot", "bareslot", "glob"]),
         st.sampled_from(CATS), st.sampled_from(PKGS), st.sampled_from(VERS), st.sampled_from(["0", "3", "1.2"]),
     )
@@ -107,8 +111,15 @@ def blank_line():
 
 
 def text_case():
-    def mk(lines, last_eol, table, newkw, pick):
+    def mk(lines, last_eol, overrides, newkw, pick, same_pkg):
         lines = [dict(l) for l in lines]
+        ents = [l for l in lines if l["spec"] is not None]
+        if same_pkg and ents:
+            # several lines for one category/package at different versions/slots/operators
+            c0 = ents[0]["spec"]
+            for l in ents[1:]:
+                sp = l["spec"]
+                l["spec"] = make_spec(sp["form"], c0["cat"], c0["pkg"], sp["ver"], sp["slot"])
         for l in lines:
             if l["spec"] is not None and l["comment"] and not l["trail"]:
                 l["trail"] = " "  # a comment needs whitespace in front of its '#'
@@ -116,20 +127,21 @@ def text_case():
             lines[-1]["eol"] = last_eol
         if lines[-1]["eol"] == "" and render_line(lines[-1]) == "":
             lines[-1]["eol"] = "\n"  # an empty last line without EOL is no line at all
+        # suggestion table: overrides (possibly empty lists) for some of the specs named in the list, keyed by the
+        # full atom (operator, version, slot), over a deterministic default that also depends on the full atom
+        atoms = list(dict.fromkeys(l["spec"]["atom"] for l in ents))
+        table = {atoms[i % len(atoms)]: v for i, v in overrides} if atoms else {}
         return {"kind": "text", "lines": lines, "table": table, "newkw": newkw, "pick": pick}
 
-    # suggestion table: a few overrides (possibly empty lists) over a deterministic default
-    table = st.lists(
-        st.tuples(st.sampled_from([f"{c}/{p}" for c in CATS for p in PKGS]), st.lists(st.sampled_from(SUGGEST_KW), max_size=3, unique=True)),
-        max_size=4,
-    ).map(lambda kv: {k: v for k, v in kv})
+    overrides = st.lists(st.tuples(st.integers(0, 6), st.lists(st.sampled_from(SUGGEST_KW), max_size=3, unique=True)), max_size=3)
     return st.builds(
         mk,
         st.lists(st.one_of(entry_line(), entry_line(), entry_line(), blank_line()), min_size=1, max_size=7),
         st.sampled_from([None, None, "", "", "\r\n"]),
-        table,
+        overrides,
         st.lists(st.sampled_from(ARCH_KW + ["-"]), max_size=3),
         st.integers(0, 6),
+        st.sampled_from([False, False, True]),
     )
 
 
@@ -138,9 +150,26 @@ def build_case():
     return st.builds(lambda e: {"kind": "build", "entries": e}, st.lists(ent, min_size=1, max_size=6))
 
 
-def default_suggest(key):
-    # deterministic non-empty default for keys without an override
-    return ["amd64", "x86"] if len(key) % 2 else ["arm64"]
+_DEFAULT_SUGGESTIONS = [["amd64", "x86"], ["arm64"], ["x86"], ["amd64", "arm64", "sparc"], ["~hppa"], ["sparc", "amd64"]]
+
+
+def default_suggest(atom_str):
+    """deterministic non-empty default; depends on every character of the atom (operator, version, slot)"""
+    h = sum((i + 1) * ord(c) for i, c in enumerate(atom_str))
+    return _DEFAULT_SUGGESTIONS[h % len(_DEFAULT_SUGGESTIONS)]
+
+
+def atom_identity(pkg):
+    """the `atom` string of make_spec, rebuilt from a parsed atom's attributes (what a caller's suggest() sees)"""
+    if pkg.op == "=*":
+        out = f"={pkg.key}-{pkg.fullver}*"
+    elif pkg.op:
+        out = f"{pkg.op}{pkg.key}-{pkg.fullver}"
+    else:
+        out = str(pkg.key)
+    if pkg.slot:
+        out += f":{pkg.slot}"
+    return out
 
 
 # --------------------------------------------------------------------------- helpers
@@ -218,7 +247,16 @@ def check_text(ctx, case, record=True):
     def sugg(key):
         return list(table[key]) if key in table else default_suggest(key)
 
-    ref_lines = [(l["spec"]["key"] if l["spec"] else None, [k for _, k in l["kws"]]) for l in lines]
+    ref_lines = [(l["spec"]["atom"] if l["spec"] else None, [k for _, k in l["kws"]]) for l in lines]
+    star_atoms = {}
+    for l in lines:
+        if l["spec"] is not None and "*" in [k for _, k in l["kws"]]:
+            star_atoms.setdefault(l["spec"]["key"], set()).add(l["spec"]["atom"])
+    for key, ats in star_atoms.items():
+        if len(ats) > 1:
+            cl.add("same_key_different_version_lines")
+            if len({tuple(sugg(a)) for a in ats}) > 1:
+                cl.add("same_key_different_suggestions")
     status, ref_out = R.pl_expand(ref_lines, sugg)
     has_sentinel = bool(cl & {"star", "caret"})
     if status == "error":
@@ -266,7 +304,7 @@ def check_text(ctx, case, record=True):
 
     # ---- expand
     def do_expand():
-        return pl.expand(lambda pkg: list(sugg(str(pkg.key))))
+        return pl.expand(lambda pkg: list(sugg(atom_identity(pkg))))
 
     try:
         got = core.guarded(ctx, case, do_expand, expected=(ERR.PackageListError,))
@@ -284,7 +322,7 @@ def check_text(ctx, case, record=True):
     else:
         check_expanded(ctx, case, lines, ref_lines, ref_out, got.text)
         # expanding again changes nothing
-        again = core.guarded(ctx, case, lambda: PL.PackageList(got.text).expand(lambda pkg: list(sugg(str(pkg.key)))),
+        again = core.guarded(ctx, case, lambda: PL.PackageList(got.text).expand(lambda pkg: list(sugg(atom_identity(pkg)))),
                              expected=(ERR.PackageListError,))
         if not core.crashed(again) and again.text != got.text:
             ctx.violation("expand:not-idempotent", case, f"second expand changed {got.text!r} into {again.text!r}")
